@@ -66,6 +66,37 @@ def forms_of(I, bv, nbits, varprefix_ok, where, rep, desc):
     return out
 
 
+def _horner_probe(P, f, rep, where, L):
+    """gf_poly_eval with coefficients i < j symbolic and every other coefficient zero must be L^i c_i + L^j c_j on every partition; returns True if a
+    disagreement was reported"""
+    pws = [ident()]
+    for _ in range(15): pws.append(mat_mul(L, pws[-1]))
+    for i in range(16):
+        for j in range(i + 1, 16):
+            I = Interp(P); st = State(); st.mem.new('poly', 128, 0)
+            ci = I.V.bv('c%d' % i, GF_BITS); cj = I.V.bv('c%d' % j, GF_BITS)
+            put(st, 'poly', 8 * i, BV(ci.bits + [0] * (64 - GF_BITS))); put(st, 'poly', 8 * j, BV(cj.bits + [0] * (64 - GF_BITS)))
+            try:
+                outs = I.run(f, [Ptr('poly', 0)], st)
+            except Unmodelled:
+                return False
+            for o in outs:
+                C = o.state.cons
+                for b_ in range(GF_BITS):
+                    want = 0
+                    for k in range(GF_BITS):
+                        if (pws[i][b_] >> k) & 1: want = bxor(want, ci.bits[k])
+                        if (pws[j][b_] >> k) & 1: want = bxor(want, cj.bits[k])
+                    got = o.ret.bits[b_]
+                    if C.reduce(got) != C.reduce(want):
+                        rep.fail('gf_poly_eval is the Horner form SUM L^k coeff[k] (probed with coeff[%d], coeff[%d] symbolic and all others zero, because its control flow depends on '
+                                 'coefficient values)' % (i, j), where, '%s: evaluation depends on which coefficients are zero' % base_name(f.name),
+                                 detail={'coefficients': [i, j], 'bit': b_, 'found': I.V.show(C.reduce(got)), 'expected': I.V.show(C.reduce(want)), 'partition': [str(x)[:80] for x in C.opaque[-3:]]},
+                                 key='HORNER|probe')
+                        return True
+    return False
+
+
 # =====================================================================  C02
 def mul2_and_horner(ctx, rep):
     for cfg in cfgs_for(ctx):
@@ -107,8 +138,13 @@ def mul2_and_horner(ctx, rep):
         for f in fe:
             I = Interp(P); st = State()
             p = symbolic_poly(I, st)
-            outs = I.run(f, [p], st)
             where = '%s:%s' % ((f.file or '').replace('/repo/', ''), f.line)
+            try:
+                outs = I.run(f, [p], st)
+            except Unmodelled as e_:
+                # control flow that depends on coefficient values: probe with two symbolic coefficients at a time (all others zero) against the reference form
+                if _horner_probe(P, f, rep, where, L): continue
+                raise
             if len(outs) != 1:
                 rep.fail('gf_poly_eval merges into one affine form', where, f.name, key='HORNER|linear'); continue
             r = outs[0].ret
@@ -120,8 +156,10 @@ def mul2_and_horner(ctx, rep):
                 if b == 0: continue
                 if not is_form(b) or b[1] != 0: ok = False; continue
                 for nm in I.V.show_mask(b[0]):
-                    ci, k = nm[1:].split('.')
-                    mats[int(ci)][j] |= 1 << int(k)
+                    import re as _re
+                    m_ = _re.fullmatch(r'c(\d+)\.(\d+)', nm)
+                    if not m_: ok = False; continue          # depends on something that is not a coefficient bit (an opaque, non-linear intermediate result)
+                    mats[int(m_.group(1))][j] |= 1 << int(m_.group(2))
             rep.check(ok, 'evaluation is a homogeneous GF(2)-linear form with bits >= 11 zero', where, f.name, key='HORNER|form')
             pw = ident()
             for i in range(16):
